@@ -13,7 +13,7 @@ EVIDENCE = dict(
     rule="cases = (token sequence, spelling policy) pairs: every well-nested sequence TLC's pushdown generator reaches "
          "(leaf: full 41-leaf alphabet x 20 policies at <= 2 tokens; pair: 16 leaves x 6 ws policies at <= 3 tokens; deep: "
          "9 leaves x 6 policies, <= 4/5 tokens, depth 3) with bytes = Spell computed by TLC; plus random depth-4 trees "
-         "spelled by the Go speller and validated against Spell by PdfSyntaxTrace. Non-trivial = policy other than "
+         "spelled by the Go speller and validated against Spell by PdfSyntaxTrace. Leaves include a grid of 633 short decimals (read as one correctly rounded conversion) and strings / names whose value is the text of a keyword (stream, endstream, endobj, obj, R, null, false, xref, trailer, startxref). Non-trivial = policy other than "
          "(one space, literal strings, plain names); distinct by (tokens, policy).",
     assumptions=["integers beyond int64 and reals in exponent notation (not PDF syntax) are not generated",
                  "dictionary keys are distinct and ascending (core.Dict is a Go map, order is not observable)"],
